@@ -66,3 +66,43 @@ def site_op_times_dense(A, site: int, n: int, d: int, vec):
     t = np.asarray(vec, dtype=complex).reshape((d,) * n)
     t = np.tensordot(np.asarray(A, dtype=complex), t, axes=([1], [site]))
     return np.moveaxis(t, 0, site).reshape(-1)
+
+
+def local_two_site_minima(factors, H, d: int = 2):
+    """For an MPS (list of (l, d, r) arrays) and a dense Hamiltonian H in the same site order, return for every
+    neighbouring pair (j, j+1) the lowest eigenvalue of the effective two-site Hamiltonian P^dagger H P, where P embeds
+    (left Schmidt basis) x (two sites) x (right Schmidt basis).  A fixed point of two-site DMRG has all of them equal to
+    its energy (up to truncation)."""
+    A = [np.asarray(_np(f), dtype=complex) for f in factors]
+    n = len(A)
+    # left-orthonormal sweep
+    Ls = []
+    cur = [a.copy() for a in A]
+    for i in range(n - 1):
+        l, dd, rr = cur[i].shape
+        q, rm = np.linalg.qr(cur[i].reshape(l * dd, rr))
+        cur[i] = q.reshape(l, dd, -1)
+        cur[i + 1] = np.tensordot(rm, cur[i + 1], axes=([1], [0]))
+    left_iso = [np.ones((1, 1), dtype=complex)]  # (d^j, chi_j)
+    for i in range(n - 1):
+        m = np.tensordot(left_iso[-1], cur[i], axes=([1], [0]))  # (d^i, d, chi)
+        left_iso.append(m.reshape(-1, m.shape[2]))
+    # right-orthonormal sweep
+    cur = [a.copy() for a in A]
+    for i in range(n - 1, 0, -1):
+        l, dd, rr = cur[i].shape
+        q, rm = np.linalg.qr(cur[i].reshape(l, dd * rr).T)  # (d*r, l') , (l', l)
+        cur[i] = q.T.reshape(-1, dd, rr)
+        cur[i - 1] = np.tensordot(cur[i - 1], rm.T, axes=([2], [0]))
+    right_iso = {n: np.ones((1, 1), dtype=complex)}  # (chi_k, d^(n-k)) for sites k..n-1
+    for i in range(n - 1, 0, -1):
+        m = np.tensordot(cur[i], right_iso[i + 1], axes=([2], [0]))  # (chi, d, d^(n-i-1))
+        right_iso[i] = m.reshape(m.shape[0], -1)
+    out = []
+    for j in range(n - 1):
+        L = left_iso[j]  # (d^j, chi_j)
+        R = right_iso[j + 2]  # (chi_{j+2}, d^(n-j-2))
+        P = np.kron(np.kron(L, np.eye(d * d)), R.T)  # (d^n, chi_j * d^2 * chi_{j+2})
+        Heff = P.conj().T @ H @ P
+        out.append(float(np.linalg.eigvalsh((Heff + Heff.conj().T) / 2)[0]))
+    return out
